@@ -154,6 +154,22 @@ func run(r *eng.Runner) {
 			}
 		}
 	}
+	// the sequence of an inner loop is an expression of the ENCLOSING scope (it may use the outer forloop), and
+	// loops over lists written in the template
+	r.Group("for-sequence-expr", "prog.case", "inner loops whose sequence is a list literal built from the outer loop's forloop fields and variable; sorted / reversed loops over list literals of numbers and strings")
+	for _, a := range seqs {
+		for mask := 0; mask < 4; mask++ {
+			inner := For{Key: "y", Over: List{Items: []Expr{v("forloop", "Counter"), v("x"), v("forloop", "Last")}}, Reversed: mask&1 != 0, HasEmpty: mask&2 != 0, Empty: []Node{T("E")},
+				Body: []Node{T("("), O(v("y")), T("/"), O(v("forloop", "Counter")), O(v("forloop", "Parentloop", "Counter")), T(")")}}
+			emit([]Node{For{Key: "x", Over: v("a"), Body: []Node{T("<"), inner, T(">")}}}, map[string]V{"a": a}, "for-nested", "for-sequence-expr")
+		}
+	}
+	for _, lst := range [][]Expr{{lit(10), lit(9), lit(2)}, {lits("b"), lits("a"), lits("c")}, {lit(3), lit(3), lit(1)}, {Lit{V: FloatV(2.5)}, Lit{V: FloatV(10.5)}, Lit{V: FloatV(0.25)}}, {v("n10"), lit(9), v("n2")}} {
+		for mask := 0; mask < 4; mask++ {
+			f := For{Key: "x", Over: List{Items: lst}, Sorted: mask&1 != 0, Reversed: mask&2 != 0, Body: []Node{O(v("x")), T(" ")}}
+			emit([]Node{f}, map[string]V{"n10": IntV(10), "n2": IntV(2)}, "for", "for-sequence-expr")
+		}
+	}
 	if !q {
 		r.Group("for-nested3", "prog.case", "three nested loops, Parentloop.Parentloop")
 		for _, a := range intSeqs(2) {
@@ -309,6 +325,7 @@ func run(r *eng.Runner) {
 		iseqs = intSeqs(5)
 	}
 	iseqs = append(iseqs, long)
+	iseqs = append(iseqs, ListAnyV(NilV(), NilV(), IntV(1), IntV(1), NilV()), ListAnyV(IntV(1), NilV(), NilV(), StrV(""), StrV("")))
 	for _, d := range iseqs {
 		for form := 0; form < 8; form++ {
 			var n Node
